@@ -137,7 +137,7 @@ def naive_index_part(chk, rnd):
         pool = [0, top + 1, top + 1, top + 2, 1 << 14, 1 << 16, 0xFFFFFFFF, rnd.randint(top + 1, 0xFFFFFFFF)]
         return [x for x in rnd.sample(pool, rnd.randint(1, 3)) if x == 0 or x > top]
     for ffr in (False, True):
-        scns = [v1.build(rnd, "naive", ffr=ffr, with_prior=False, bad=bad) for _ in range((60 if chk.quick() else 2500) // (3 if ffr else 1))]
+        scns = [v1.build(rnd, "naive", ffr=ffr, with_prior=False, bad=bad) for _ in range((60 if chk.quick() else 1200) // (3 if ffr else 1))]
         lines, impl, outs = v1.run(chk, scns, "naive", ffr=ffr, stream="naive-index%s" % ("-ffr" if ffr else ""))
         nt, dist = [], {"illegal_indices": 0, "one_past_the_last_parity": 0}
         for s, l, raw, out in zip(scns, lines, impl, outs):
